@@ -16,18 +16,8 @@
 (* dropped when it does not fit; a value that rounds to zero may keep or   *)
 (* lose its minus sign.                                                    *)
 (***************************************************************************)
-EXTENDS Integers, Sequences, FiniteSets
+EXTENDS Bytes, FiniteSets
 
-SHARP == 35
-POINT == 46
-COMMA == 44
-PLUS == 43
-MINUS == 45
-AMP == 38
-BANG == 33
-USCORE == 95
-PERCENT == 37
-BLANK == 32
 
 \* ---- scanner ---------------------------------------------------------------
 \* parts: <<"lit", bytes>> | <<"str">> | <<"chr">> | <<"num", w, d, point, group, sign>>
